@@ -629,7 +629,7 @@ def unit_pairs(ctx):
     da = ctx.choose("dtypeA", ["f", "i", "c"]) if "A" in which else "f"
     db = ctx.choose("dtypeB", ["f", "i", "c"]) if "B" in which else "f"
     labels = ctx.choose("labels", label_variants(k, ndim)) if ("A" in which or "B" in which) else "default"
-    scalar = ctx.choose("scalar", ["plain", "named"]) if ("S" in which and ctx.tier != "quick") else "plain"
+    scalar = ctx.choose("scalar", ["plain"] if ctx.tier == "quick" else ["plain", "named"]) if "S" in which else "plain"
     mesh, vals = build_leaves(ctx, meshname, k, da, db, labels, which, scalar)
     x = vals[0]
     y = None if yn is None else vals[-1]
